@@ -105,6 +105,41 @@ def query (d : DSt) (s : St) (fs : List String) : Option String :=
   | ["users", sec, n, dom] => do
     some (encList (sortStrs (((getUsers (s.links.get (← secOf sec)) (← decStr n) (← optDom dom)).eraseDups).map encStr)))
   | ["policy", sec] => do some (encRules (s.pol.get (← secOf sec)))
+  | ["implicitroles", n, dom] => do
+    match implicitRoles s.links.g (← decStr n) (← optDom dom) with
+    | some rs => some (encList (sortStrs (rs.map encStr)))
+    | none => some "!fuel"
+  | ["implicitperms", u] => do
+    match implicitPermissions s (← decStr u) with
+    | some ps => some (joinC (sortStrs (ps.eraseDups.map encRule)))   -- compared as a set
+    | none => some "!fuel"
+  | ["implicitusers", perm] => do
+    some (encList (sortStrs ((implicitUsersForPermission s (← decStrList perm)).map encStr)))
+  | _ => none
+
+/-- reachable along at least one assignment, decided independently of the worklist loop: some direct role reaches
+    the target within a bound that covers every simple path -/
+def reachPlus (g : Casbin.Graph) (u r : String) : Bool :=
+  (Casbin.succs g u).any fun v => Casbin.hasLink g ((namesOf g).length + 2) v r
+
+def specQuery (s : St) (fs : List String) : Option String :=
+  match fs with
+  | ["implicitroles", n, dom] => do
+    let g := edgesOf s.links.g (← optDom dom)
+    let u ← decStr n
+    some (encList (sortStrs (((namesOf g).filter (reachPlus g u)).map encStr)))
+  | ["implicitperms", u] => do
+    let g := edgesOf s.links.g none
+    let u ← decStr u
+    let holders := u :: (namesOf g).filter (reachPlus g u)
+    -- one copy per holder, as the API concatenates the permissions of the user and of every implicit role
+    some (joinC (sortStrs ((holders.eraseDups.flatMap fun h => s.pol.p.filter fun r => r[0]? == some h).eraseDups.map encRule)))
+  | ["implicitusers", perm] => do
+    let perm ← decStrList perm
+    let cands := ((s.pol.g.filterMap (·[0]?)) ++ (s.pol.p.filterMap (·[0]?))).eraseDups
+    let roles := s.pol.g.filterMap (·[1]?)
+    some (encList (sortStrs (((cands.filter fun x => !roles.contains x).filter fun x =>
+      match enforceQ .rbac s (x :: perm) with | .ok true => true | _ => false).map encStr)))
   | _ => none
 
 def mirror (s : St) : Bool :=
@@ -134,7 +169,7 @@ def step (d : DSt) (fs : List String) : DSt × String :=
       let dw := s'.wlog.drop d.st.wlog.length
       ({ d with st := s' }, "model=" ++ showRet r ++ "#" ++ joinC (da.map showACall) ++ "#" ++ joinC (dw.map showWCall))
   | "q" :: rest =>
-    match query d d.st rest, query d (fresh d.cfg d.st) rest with
+    match query d d.st rest, (match specQuery d.st rest with | some x => some x | none => query d (fresh d.cfg d.st) rest) with
     | some a, some b => (d, "model=" ++ a ++ " spec=" ++ b)
     | _, _ => (d, "bad-op")
   | ["obs"] =>
